@@ -77,11 +77,11 @@ def _get_complex_literal_expr(obj: object) -> Optional[str]:  # noqa: PLR0911
         return "frozenset()"
 
     if type(obj) is slice:
-        parts = (obj.start, obj.step, obj.stop)
+        parts = (obj.start, obj.stop, obj.step)
         return "slice" + _parenthesize("()", parts)
 
     if type(obj) is range:
-        parts = (obj.start, obj.step, obj.stop)
+        parts = (obj.start, obj.stop, obj.step)
         return "range" + _parenthesize("()", parts)
 
     if type(obj) is dict:
